@@ -240,6 +240,28 @@ class Check:
     def info(self, rule, module, function, construct, node, why):
         return self.ob(rule, module, function, construct, INFO, node, why)
 
+    def borrow(self, other_pid: str, rule_ids: tuple[str, ...], as_rule: str) -> None:
+        """Obligations of a sibling property's checker that this property also rests on (e.g. the function translator under every
+        code generator) are decided by the sibling's rules and recorded here under `as_rule`, construct prefixed by their origin."""
+        import importlib
+
+        mod = importlib.import_module(f"mxverif.checks.{other_pid.lower()}")
+        cls = next(v for v in vars(mod).values() if isinstance(v, type) and issubclass(v, Check) and v is not Check and getattr(v, "pid", "") == other_pid)
+        other = cls(self.prog, "quick")
+        try:
+            other.run()
+        except AnalysisError as e:
+            self.undecided_ob(as_rule, "-", f"<{other_pid}>", f"{other_pid} rules {'/'.join(rule_ids)}", 0, f"sibling analysis failed: {e}")
+            return
+        n = 0
+        for o in other.obs:
+            if o.rule in rule_ids:
+                n += 1
+                self.obs.append(Ob(as_rule, o.module, o.function, f"{other_pid}/{o.rule} {o.construct}", o.verdict, o.line, o.why, o.witness))
+                self.functions_analysed.add(f"{o.module}:{o.function}")
+        if n == 0:
+            self.undecided_ob(as_rule, "-", f"<{other_pid}>", f"{other_pid} rules {'/'.join(rule_ids)}", 0, "the sibling produced no obligation for these rules")
+
     def run(self) -> None:  # pragma: no cover - abstract
         raise NotImplementedError
 
@@ -362,9 +384,11 @@ def run_check(
         out(f"VIOLATION property={pid} replay={path}")
         rc = 1
     if problems:
+        # a definite violation stays the verdict (exit 1); parts that could not be analysed only decide the exit code when nothing was found
         for p in problems:
-            out(f"ANALYSIS-ERROR property={pid} {p}")
-        rc = 2
+            out(f"{'ANALYSIS-ERROR' if rc == 0 else 'ANALYSIS-NOTE'} property={pid} {p}")
+        if rc == 0:
+            rc = 2
 
     wall = time.time() - t0
     if write_evidence:
